@@ -22,16 +22,29 @@ Inductive ty :=
 | TStruct (fs : list field)   (* struct with named fields *)
 | TUnitEnum (names : list str)(* enum of unit variants, externally tagged: the (renamed) variant name as a string *)
 | TUntagged (vs : list ty)    (* #[serde(untagged)] enum of newtype variants *)
-with field := Field (name : str) (dflt : bool) (t : ty).   (* serialised name, #[serde(default)], type *)
+with field := Field (name : str) (dflt : bool) (skip : skipk) (t : ty)   (* serialised name, #[serde(default)], skip_serializing[_if], type *)
+with skipk := SkNever | SkIfNone | SkIfSome | SkIfEmpty | SkAlways.
 
 Inductive value :=
 | VStr (s : str) | VNum (n : N) | VBool (b : bool)
 | VOpt (o : option value) | VList (l : list value) | VRec (l : list value)
 | VEnum (i : nat) | VVar (i : nat) (v : value).
 
-Definition f_name (f : field) := match f with Field n _ _ => n end.
-Definition f_dflt (f : field) := match f with Field _ d _ => d end.
-Definition f_ty (f : field) := match f with Field _ _ t => t end.
+Definition f_name (f : field) := match f with Field n _ _ _ => n end.
+Definition f_dflt (f : field) := match f with Field _ d _ _ => d end.
+Definition f_skip (f : field) := match f with Field _ _ k _ => k end.
+Definition f_ty (f : field) := match f with Field _ _ _ t => t end.
+
+(* skip_serializing_if: is this member omitted for this value? *)
+Definition skipped (k : skipk) (v : value) : bool :=
+  match k, v with
+  | SkAlways, _ => true
+  | SkIfNone, VOpt None => true
+  | SkIfSome, VOpt (Some _) => true
+  | SkIfEmpty, VList [] => true
+  | SkIfEmpty, VStr [] => true
+  | _, _ => false
+  end.
 
 (* ------------------------------------------------------------------ Serialize *)
 Fixpoint ser (t : ty) (v : value) {struct t} : json :=
@@ -47,7 +60,7 @@ Fixpoint ser (t : ty) (v : value) {struct t} : json :=
   | TStruct fs, VRec l =>
       JObj ((fix go (fs : list field) (l : list value) {struct fs} : list (str * json) :=
                match fs, l with
-               | Field n _ ft :: fs', x :: l' => (n, ser ft x) :: go fs' l'
+               | Field n _ sk ft :: fs', x :: l' => if skipped sk x then go fs' l' else (n, ser ft x) :: go fs' l'
                | _, _ => []
                end) fs l)
   | TUnitEnum names, VEnum i => JStr (nth i names [])
@@ -115,7 +128,7 @@ Fixpoint de (t : ty) (j : json) {struct t} : option value :=
             ((fix go (fs : list field) {struct fs} : option (list value) :=
                 match fs with
                 | [] => Some []
-                | Field n d ft :: fs' =>
+                | Field n d _ ft :: fs' =>
                     match (match lookup n o with Some x => de ft x | None => missing d ft end), go fs' with
                     | Some v, Some r => Some (v :: r)
                     | _, _ => None
@@ -150,7 +163,7 @@ Fixpoint has_ty (t : ty) (v : value) {struct t} : bool :=
       (fix go (fs : list field) (l : list value) {struct fs} : bool :=
          match fs, l with
          | [], [] => true
-         | Field _ _ ft :: fs', x :: l' => has_ty ft x && go fs' l'
+         | Field _ _ _ ft :: fs', x :: l' => has_ty ft x && go fs' l'
          | _, _ => false
          end) fs l
   | TUnitEnum names, VEnum i => Nat.ltb i (length names)
@@ -181,6 +194,16 @@ Definition rejects (a b : ty) : bool :=
 Fixpoint all_rejects (vs : list ty) : bool :=
   match vs with [] => true | a :: rest => forallb (rejects a) rest && all_rejects rest end.
 
+(* an omitted member must come back as exactly the omitted value: None for an Option, the Default (empty) for a
+   defaulted collection or string; skipping Some values, or always, loses information *)
+Definition skip_ok (k : skipk) (d : bool) (t : ty) : bool :=
+  match k with
+  | SkNever => true
+  | SkIfNone => match t with TOpt _ => true | _ => false end
+  | SkIfEmpty => d && match t with TVec _ | TSet | TStr => true | _ => false end
+  | SkIfSome | SkAlways => false
+  end.
+
 Fixpoint wf (t : ty) {struct t} : bool :=
   match t with
   | TStr | TOpaque | TU16 | TBool | TSet => true
@@ -188,7 +211,7 @@ Fixpoint wf (t : ty) {struct t} : bool :=
   | TVec t' => wf t'
   | TStruct fs =>
       nodup_str (map f_name fs)
-      && (fix go (fs : list field) {struct fs} : bool := match fs with [] => true | Field _ _ ft :: fs' => wf ft && go fs' end) fs
+      && (fix go (fs : list field) {struct fs} : bool := match fs with [] => true | Field _ d sk ft :: fs' => skip_ok sk d ft && wf ft && go fs' end) fs
   | TUnitEnum names => nodup_str names
   | TUntagged vs =>
       forallb is_struct vs && all_rejects vs
